@@ -48,7 +48,7 @@ def run(h, case):
     h.assume(t > 0, 't > 0')
     pts = h.argument(h.array([[xs[i], ys[i]] for i in range(n)]))
     f = getattr(h.L.clustering, link)
-    lab = h.ints(f(pts, t))
+    lab = h.ints(f(pts, h.num(t)))
     h.prove(len(lab) == n and lab[0] == 0 and all(lab[i] - lab[i - 1] in (0, 1) for i in range(1, n)), 'labels contiguous from 0')
     length = xs[-1] - xs[0]
     conds = []
@@ -63,7 +63,7 @@ def run(h, case):
     if case['mode'] == 'monotone':
         t2 = h.real('t2')
         h.assume(t2 > t, 't2 > t')
-        lab2 = h.ints(f(pts, t2))
+        lab2 = h.ints(f(pts, h.num(t2)))
         h.prove(lab2[-1] <= lab[-1], 'cluster count non-increasing in t')
         return [lab, lab2]
     return lab
